@@ -415,7 +415,8 @@ void solver_t::done(const program_t& program, solver_state_t& state, const scala
 {
     const auto feasible = program.feasible(state);
 
-    if (feasible && std::max({state.m_eta, state.m_rdual.lpNorm<2>(), state.m_rprim.lpNorm<2>()}) < epsilon)
+    // NB: written as three comparisons so that a NaN residual is never reported as converged (std::max skips NaNs)!
+    if (feasible && state.m_eta < epsilon && state.m_rdual.lpNorm<2>() < epsilon && state.m_rprim.lpNorm<2>() < epsilon)
     {
         state.m_status = solver_status::converged;
     }
